@@ -160,7 +160,8 @@ def check(rep, ctx):
                         q, issues = (timeflow.read_side if side == "readers" else timeflow.write_side)(d["conv"], bits, kind)
                         issues = [i for i in issues if i[0] in ("T-gran", "T-float64", "T-trunc", "T-epoch")]
                         if q is None:
-                            issues = [("T-?", "time conversion not understood", "")]
+                            rep.limit(f"kio.serial.{side}:{name}: time conversion not understood: {timeflow.show(d['conv'])[:160]}")
+                            continue
                         rep.check(R_E, not issues, construct=f"kio.serial.{side}:{name}", stmt=timeflow.show(d["conv"]),
                                   message="; ".join(f"{r}: {m}" for r, m, _ in issues), file=file, line=rec["line"])
     # the guards of an integer writer admit every value of its documented domain ------------------------------
